@@ -19,7 +19,7 @@ func (c19) Size(tier string) Size {
 	return Size{Batches: 8, Cases: 1200}
 }
 func (c19) Rule() string {
-	return "case = history of 1-80 operations on one SoftCollection: SetType (first, and again later with a wider / narrower / disjoint type), Add (soft or struct-backed resource of the collection's type, a narrower, a wider or a conflicting type; duplicate IDs), Remove (front/middle/end/missing/duplicate ID), AddAttr / AddRel (fresh and duplicate names), Set on a resource after it was added; after EVERY operation Len, At(i) for i in [-2,len+2], Resource(id) and, for every stored resource, Attrs/Rels and Get of every current field are compared with a list model. Add of an element of the collection itself (the pointer At returns) appends a second, equal element. Non-trivial = history with >= 2 Adds, >= 1 Remove and >= 1 field added after an Add; distinct = hash of the operation list."
+	return "case = history of 1-80 operations on one SoftCollection: SetType (first, and again later with a wider / narrower / disjoint type), Add (soft or struct-backed resource of the collection's type, a narrower, a wider or a conflicting type, soft ones sometimes with a relationship that has no target type; duplicate IDs), Remove (front/middle/end/missing/duplicate ID), AddAttr / AddRel (fresh and duplicate names), Set on a resource after it was added; after EVERY operation Len, At(i) for i in [-2,len+2], Resource(id) and, for every stored resource, Attrs/Rels and Get of every current field are compared with a list model. Add of an element of the collection itself (the pointer At returns) appends a second, equal element. Non-trivial = history with >= 2 Adds, >= 1 Remove and >= 1 field added after an Add; distinct = hash of the operation list."
 }
 func (c19) Assumptions() []string {
 	return []string{"each field name has one definition per history for SetType/AddAttr/AddRel (SetType never redefines a name with another kind); conflicting definitions only arrive through Add'ed resources",
@@ -133,7 +133,22 @@ func (m c19) Case(c *Ctx, r *RNG) {
 			if r.Chance(1, 4) {
 				rt.Attrs = append(rt.Attrs, AttrSpec{Name: "extra" + fmt.Sprint(r.Intn(2)), Kind: KInt})
 			}
+			if !rt.Wrapped && r.Chance(1, 5) {
+				// a relationship without a target type: legal in a soft resource (SoftResource.AddRel and type
+				// literals do not ask for one), so it is a field the collection has to take over like any other
+				if r.Bool() {
+					rt.Rels = append(rt.Rels, RelSpec{Name: "nt0", ToOne: true})
+				} else {
+					rt.Rels = append(rt.Rels, RelSpec{Name: "nt1"})
+				}
+			}
 			rs := genResource(r, &rt, ids[r.Intn(len(ids))])
+			if rl := rt.Rel("nt0"); rl != nil {
+				rs.ToOne["nt0"] = "target-" + fmt.Sprint(r.Intn(3))
+			}
+			if rl := rt.Rel("nt1"); rl != nil {
+				rs.ToMany["nt1"] = []string{"k2", "k1"}[:r.Range(1, 2)]
+			}
 			ops = append(ops, c19op{Op: "Add", Res: rs, ResT: &rt, OwnType: r.Chance(1, 5)})
 			nAdded++
 		case 5, 6:
